@@ -8,7 +8,9 @@ SPEC = dict(
                 "result class. (1) utf8 primitives DecodeRune/DecodeLastRune/RuneCount/Valid/EncodeRune on valid, truncated, "
                 "overlong, surrogate and random byte strings; (2) BestFragments on (stored text, Locations) of REAL searches "
                 "(in-memory index, analyzers standard/simple/web/keyword/en/fr/cjk + a shingle analyzer, MatchQuery, "
-                "IncludeLocations) with fragment sizes 1..300, num -1..4, HTML and ANSI; (3) generated valid texts "
+                "IncludeLocations, TopN 10 returning several hits, planted groups of 3-8 documents with 1-6 occurrences of one word) with "
+                "fragment sizes 1..300, num -1..4, HTML and ANSI, EVERY hit highlighted and its Locations compared with the occurrences of "
+                "the query terms recomputed from its own stored text; (3) generated valid texts "
                 "(latin with accents, CJK, emoji, combining marks, U+FFFD, HTML specials, the separator itself) with "
                 "well-formed locations incl. overlapping/nested/unsorted ones; (4) adversarial locations (negative, inverted, "
                 "beyond the text, 2^40) and invalid UTF-8 texts; (5) Fragment, MergeOverlapping, Format, Score and "
